@@ -189,6 +189,16 @@ def make_conversions(k, n, with_extra):
                     _same_value(ctx, back[i, j], vals[i, j], "live points -> array: same values in the same order")
         else:
             ctx.prove(list(lp.dtype.names) == names + ["logP", "logL", "it"] + [e[0] for e in extras], "empty input: correct fields")
+        # the same conversion without the non-sampling fields: same dtype for 0, 1 and n points
+        lpn = lpm.numpy_array_to_live_points(vals.copy(), names, non_sampling_parameters=False)
+        ctx.prove(len(lpn) == n and list(lpn.dtype.names) == names, "array -> live points without non-sampling fields: only the parameters, for empty input too")
+        for i in range(n):
+            for j in range(k):
+                _same_value(ctx, lpn[names[j]][i], vals[i, j], "array -> live points without non-sampling fields: values preserved")
+        lpe = lpm.numpy_array_to_live_points(np.empty((0, k), dtype=f), names, non_sampling_parameters=False)
+        ctx.prove(len(lpe) == 0 and lpe.dtype == lpn.dtype, "empty (0, d) input gives the same dtype as non-empty input, with and without non-sampling fields")
+        lpe2 = lpm.numpy_array_to_live_points(np.empty((0, k), dtype=f), names)
+        ctx.prove(len(lpe2) == 0 and lpe2.dtype == lpm.numpy_array_to_live_points(np.zeros((1, k), dtype=f), names).dtype, "empty (0, d) input gives the same dtype as non-empty input, with and without non-sampling fields")
         if n == 1:
             lp1 = lpm.numpy_array_to_live_points(vals[0].copy(), names)
             ctx.prove(len(lp1) == 1, "a single 1-d point becomes one live point")
